@@ -242,3 +242,20 @@ Print Assumptions C18x_model_ok_partial.
 Theorem C18huge_model_ok : forall op k, ok_C18huge op k (run_C18huge op k) = true.
 Proof. exact C18huge_model_ok_lemma. Qed.
 Print Assumptions C18huge_model_ok.
+
+(* the ARRAY forms on zero-sized element types (suite C18arr): VolatileArrayRef::<Z>::{copy_to_volatile_slice, copy_to,
+   copy_from, store, load, ref_at(i).to_slice(), to_slice()} for Z = [u8;0] | [u64;0] | [u128;0] - the Impl/Dirty.v
+   functions at element size 0 meet the checker written from the property text for EVERY page size, region size, offset,
+   element count 0 .. usize::MAX, index and buffer length: no panic class, no byte written, no page marked, and Ok whenever
+   the array exists at an offset inside the region (and the destination slice of copy_to_volatile_slice exists) *)
+Theorem C18arr_model_ok : forall ps size off n zsel op i k,
+  wf_C18arr ps size off n zsel op i k = true ->
+  let '(cl, cnt, ch, d) := run_C18arr ps size off n op i k in ok_C18arr size off n op i k cl ch d = true.
+Proof. exact C18arr_model_ok_lemma. Qed.
+
+Example C18arr_nonvacuous :
+  wf_C18arr 4096 8292 4090 5 1 0 100 7 = true /\ run_C18arr 4096 8292 4090 5 0 100 7 = (0, 0, [], []) /\
+  run_C18arr 4096 8292 4090 5 1 0 3 = (0, 3, [], []) /\ run_C18arr 4096 8292 4090 18446744073709551615 1 0 3 = (1, 0, [], []).
+Proof. vm_compute. repeat split. Qed.
+
+Print Assumptions C18arr_model_ok.
